@@ -377,3 +377,25 @@ template <class T, size_t N> void op_piv_solve_inv(Ctx &c) {
     c.retv(r);
 }
 } // namespace memsim
+
+namespace memsim {
+// every compound operator with a lazy product on the right, including sizes above the library's stack/heap thresholds
+template <class T, size_t M, size_t K, size_t N> void op_lazy_matmul_ops(Ctx &c) {
+    auto &a = c.own<Tensor<T, M, K>>(0, false); auto &b = c.own<Tensor<T, K, N>>(1, false); auto &o = c.own<Tensor<T, M, N>>(2, true);
+    uint32_t w = c.p1() % 5;
+    c.run([&] {
+        switch (w) {
+        case 0: o = a % b; break;
+        case 1: o += a % b; break;
+        case 2: o -= a % b; break;
+        case 3: o *= a % b; break;
+        default: o /= (a % b) + (T)1000; break;      // keeps integer divisors away from zero
+        }
+    });
+}
+template <class T, size_t M, size_t K, size_t N> void op_lazy_matmul_div(Ctx &c) {
+    auto &a = c.own<Tensor<T, M, K>>(0, false); auto &b = c.own<Tensor<T, K, N>>(1, false); auto &o = c.own<Tensor<T, M, N>>(2, true);
+    c.run([&] { o /= a % b; o *= a % b; });
+}
+} // namespace memsim
+
